@@ -267,3 +267,33 @@ def config_pair_case(name, rule, k, kc, outs, rename=None, what='the configured 
             res.append(R.ob('%s[%s]' % (name, label), rule, st, detail, where=R.where_of(itc, tc) if st != R.PROVED else None, kernel=kc.source() + '  // ' + kc.cfg.describe()))
         return res
     return R.Case(name, [k, kc], judge)
+
+
+def pattern_witness(t1, t2, limit=400):
+    """an input (bit patterns of every input lane, tried both as small integers and as float / double values) at which the two terms evaluate
+    (exactly, by the concrete term evaluator) to different values: ({input: pattern}, v1, v2) or None"""
+    from . import ceval as CE
+    import itertools
+    ins = sorted({x for t in (t1, t2) for x in tm.walk(t) if x.op == 'in'}, key=lambda q: q.id)
+    if not ins or len(ins) > 4:
+        return None
+    cands = []
+    for x in ins:
+        w = x.w
+        vals = [3, 200, (1 << w) - 7, 0, 1]
+        if w in (32, 64):
+            vals = [CE.f2b(w, 2.5), CE.f2b(w, -3.75), CE.f2b(w, 0.1), CE.f2b(w, 1e10), CE.f2b(w, 300.5)] + vals + [70000]
+        cands.append([v & ((1 << w) - 1) for v in vals])
+    n = 0
+    for combo in itertools.product(*cands):
+        n += 1
+        if n > limit:
+            break
+        env = dict(zip(ins, combo))
+        try:
+            a, b = CE.evaluate(t1, env), CE.evaluate(t2, env)
+        except CE.NoValue:
+            continue
+        if a != b:
+            return {tm.show(x): ('%#x' % v) for x, v in env.items()}, a, b
+    return None
